@@ -54,7 +54,7 @@ TO = {'quick': 2400, 'thorough': 5400}
 
 
 def A(h, fns, bounds, **kw):
-    return K('smart_account::' + h, profile=kw.pop('profile', 'sa_auth'), functions=fns, bounds=bounds, cbmc_args=CB, timeout=TO, **kw)
+    return K('smart_account::' + h, profile=kw.pop('profile', 'sa_auth'), functions=fns, bounds=bounds, cbmc_args=CB, timeout=TO, mem_gb=12, **kw)
 
 
 C03 = [
@@ -93,7 +93,7 @@ R_COMMON = ('CAP=3; one inductive step from an arbitrary stored state: rule id f
 
 def R(h, fns, bounds, **kw):
     return K('context_rules::' + h, profile='sa_rules', functions=RULE_FNS + [SA + f for f in fns] + [VIA + fns[0]], bounds=bounds,
-             timeout={'quick': 1800, 'thorough': 3600}, **kw)
+             timeout={'quick': 1800, 'thorough': 3600}, mem_gb=12, **kw)
 
 
 ADD_B = ('CAP=3; arbitrary NextId / Count (present or absent, full u32), the id list of the rule\'s type with 0..2 ids below NextId, whatever is '
@@ -114,7 +114,7 @@ C20 = [
     R('remove_policy_accepts', ['remove_policy'], R_COMMON + '; stored rule, member policy, something remains, fresh fingerprint', must_succeed=True),
     R('update_name', ['update_context_rule_name'], R_COMMON),
     R('update_valid_until', ['update_context_rule_valid_until'], R_COMMON),
-    K('context_rules::getters', profile='sa_rules', functions=[SA + 'get_context_rules', SA + 'get_context_rules_count', SA + 'get_context_rule'],
+    K('context_rules::getters', profile='sa_rules', mem_gb=12, functions=[SA + 'get_context_rules', SA + 'get_context_rules_count', SA + 'get_context_rule'],
       bounds='CAP=3; a list of 0..2 distinct ids of one type with their Meta / Signers / Policies entries (<= 2 signers, <= 2 policies each), Count present or absent'),
 ]
 
